@@ -1341,21 +1341,43 @@ insert_list:
         return (states) th->state;
     }
 
+    // A yielding thread becomes READY in the run queue (goto_next / try_goto)
+    // before its context is saved by switch_context(). A vCPU that steals
+    // work scans that queue concurrently, and would resume the thread from
+    // its stale context while this vCPU is still running on its stack. So a
+    // thread that may be stolen keeps its own lock -- which the stealing scan
+    // only try_lock()s -- across the switch; the lock is released on the
+    // next thread's stack, when the context has been saved.
+    inline bool lock_if_stealable(thread* th) {
+        if (likely(!th->allow_work_stealing())) return false;
+        th->lock.lock();
+        return true;
+    }
+    inline void switch_context_yield(thread* from, thread* to, bool locked) {
+        if (unlikely(locked))
+            switch_context_defer(from, to, &spinlock_unlock, &from->lock);
+        else
+            switch_context(from, to);
+    }
+
     int thread_yield()
     {
         RunQ rq;
         if_update_now();
         rq.current->error_number = 0;
+        bool locked = lock_if_stealable(rq.current);
         auto sw = AtomicRunQ(rq).goto_next();
         VT_EVT(VT_PRESWITCH, sw.from, sw.to, 0, 0);
-        switch_context(sw.from, sw.to);
+        switch_context_yield(sw.from, sw.to, locked);
         return rq.current->error_number;
     }
 
     __attribute__((noinline))
     void thread_yield_fast() {
-        auto sw = AtomicRunQ().goto_next();
-        switch_context(sw.from, sw.to);
+        RunQ rq;
+        bool locked = lock_if_stealable(rq.current);
+        auto sw = AtomicRunQ(rq).goto_next();
+        switch_context_yield(sw.from, sw.to, locked);
     }
 
     int thread_yield_to(thread* th) {
@@ -1378,10 +1400,11 @@ insert_list:
             return thread_yield();
         }
 
+        bool locked = lock_if_stealable(rq.current);
         auto sw = AtomicRunQ(rq).try_goto(th);
         if_update_now();
         rq.current->error_number = 0;
-        switch_context(sw.from, sw.to);
+        switch_context_yield(sw.from, sw.to, locked);
         return rq.current->error_number;
     }
 
@@ -2217,12 +2240,16 @@ insert_list:
     }
 
     struct migrate_args {thread* th; vcpu_base* v;};
-    static int do_thread_migrate(thread* th, vcpu_base* v);
+    static int do_thread_migrate(thread* th, vcpu_base* v, bool prelocked = false);
     static void do_defer_migrate(void* m_) {
         auto m = (migrate_args*)m_;
-        do_thread_migrate(m->th, m->v);
+        do_thread_migrate(m->th, m->v, true);
     }
     static int defer_migrate_current(vcpu_base* v) {
+        // the migrating thread is READY in the run queue until the deferred
+        // do_thread_migrate() moves it: keep its lock so that it can not be
+        // stolen before its context is saved (see lock_if_stealable())
+        CURRENT->lock.lock();
         auto sw = AtomicRunQ().goto_next();
         migrate_args defer_arg{sw.from, v};
         switch_context_defer(sw.from, sw.to,
@@ -2249,10 +2276,11 @@ insert_list:
         }
         return do_thread_migrate(th, v);
     }
-    static int do_thread_migrate(thread* th, vcpu_base* vb) {
+    static int do_thread_migrate(thread* th, vcpu_base* vb, bool prelocked) {
         assert(vb != th->vcpu);
         AtomicRunQ arq;
-        SCOPED_LOCK(th->lock);
+        if (!prelocked) th->lock.lock();    // else: adopt the lock held by the caller
+        DEFER(th->lock.unlock());
         if (th->state != READY || th->vcpu != CURRENT->vcpu) {
             LOG_ERROR_RETURN(EINVAL, -1,
                 "thread ` state changed during migrate", th)
